@@ -3,7 +3,7 @@ N = ("Trusted: Coq 8.16.1 kernel (vm_compute used, no native_compute); no axioms
      "'Closed under the global context', re-checked on each run); the hand-written Gallina model (Tst/Traph/Traphw/Codec/Storage.v), tied "
      "to /repo by the files regenerated from the source on every run (Consts.v: constants, formats, accessor table; CallGraph.v; "
      "GenHelpers.v / GenHelpers2.v: the pure helpers incl. their loops; GenStorage.v: the two storage classes; GenNode.v: reading and "
-     "writing a trie node with its tail blocks; GenLinks.v: the link store node class, add_links and the three list traversals; GenTrie.v: lru_node, windup_lru and the node navigation methods - each proved equal to the model's definitions) and by this check's correspondence run (extraction: ExtrOcamlBasic only); the translators' Python subset; Python "
+     "writing a trie node with its tail blocks; GenLinks.v: the link store node class, add_links and the three list traversals; GenTrie.v: lru_node, windup_lru and the node navigation methods; GenTrieW.v: add_lru, add_page, follow_lru and the walk history; GenTrieD.v: dfs_iter, webentity_dfs_iter, pages_iter, the block scan; GenTraph.v / GenTraphW.v / GenTraphL.v: requests of the public API - each proved equal to the model's definitions) and by this check's correspondence run (extraction: ExtrOcamlBasic only); the translators' Python subset; Python "
      "semantics (bytes order, struct, re, dict order, file I/O) as modelled. Quantifier of the theorems: every configuration (default rule "
      "+ anchored rules of the family), every history of well-formed requests (wf_op: LRUs non-empty and '|'-terminated, ids non-zero). ")
 REF = ("Refinement: RefFull.run_R proves that after EVERY history the model state is related (R = Rcore /\\ Rlinks) to the abstract "
@@ -22,7 +22,9 @@ T_REF = "Coq proof: refinement of the tree model to an abstract specification by
 CLAIMED = {
     "C01": c(REF + "Props/C01.v: pages_iter is a permutation of the specification's page map (no page lost/invented/duplicated, bytes and crawled marks "
              "equal), the two block-scan counts equal its size and crawled count, every reply equals the specification's reply (page counts in "
-             "reports), and at specification level a page is added iff new, re-submission only turns the crawled mark on.", T_REF, "DESIGN.md section 6 C01"),
+             "reports), and at specification level a page is added iff new, re-submission only turns the crawled mark on. On the traversal and block scan "
+             "translated from the source on every run (GenTrieD.v): pages_iter yields a permutation of the specification's pages, count_pages / "
+             "count_crawled_pages return its counts, on the trie file of every reachable state.", T_REF, "DESIGN.md section 6 C01"),
     "C02": c(REF + "Props/C02.v: an LRU is findable iff it is in the specification's known set (stem-prefix closure of every LRU named in a write), the "
              "full traversal lists exactly that set without duplicates, bottom-up reconstruction from the located address returns the LRU; stem "
              "and block codecs round-trip for every stem length (CodecFacts: chunks, pascal string, little-endian registers). On the lookup code translated "
@@ -35,9 +37,13 @@ CLAIMED = {
              "store of every reachable state.", T_REF, "DESIGN.md section 6 C03"),
     "C04": c(REF + "Props/C04.v: retrieve_webentity / retrieve_prefix equal longest-stem-prefix resolution over the specification's net prefix map for "
              "every well-formed LRU (present or not), refusal iff none; prefix enumeration = that map; attaching an attached prefix is refused "
-             "(create and add_prefix), exactly then.", T_REF, "DESIGN.md section 6 C04"),
+             "(create and add_prefix), exactly then. On the API requests translated from the source on every run (GenTraph.v over GenTrieW.v / GenTrie.v): "
+             "Traph.retrieve_webentity, retrieve_prefix, get_webentity_by_prefix and the prefix enumeration answer the specification's resolution, "
+             "on the trie file of every reachable state, without changing a byte.", T_REF, "DESIGN.md section 6 C04"),
     "C05": c(REF + "Props/C05.v: for any prefix list, the pages returned are (as a permutation) the specification's realm pages: pages under the prefix "
-             "with no longer webentity prefix in between; crawled variant = the crawled ones; depth-limited variant too.", T_REF, "DESIGN.md section 6 C05"),
+             "with no longer webentity prefix in between; crawled variant = the crawled ones; depth-limited variant too. On the API requests translated "
+             "from the source on every run (GenTraph.v over the translated webentity_dfs_iter of GenTrieD.v): get_webentity_pages / "
+             "get_webentity_crawled_pages answer a permutation of the specification's pages and are refused exactly when it refuses.", T_REF, "DESIGN.md section 6 C05"),
     "C06": c(REF + "Props/C06.v: get_potential_prefix equals the specification's max(E,K) decision and writes nothing; a page insertion creates exactly "
              "what the specification's ladder dictates (iff the candidate is longer than the existing prefix; one id; the unowned variations); "
              "installing a rule equals re-inserting the pages beneath the anchor (a permutation of them, in the index's order).", T_REF, "DESIGN.md section 6 C06",
@@ -68,7 +74,9 @@ CLAIMED = {
              "The 32-bit width of the header field is not modelled (unbounded N)."),
     "C13": c(REF + "Props/C13.v: parents = webentities on proper stem-prefixes, children = webentities on proper extensions (set equality with the "
              "specification), the child query going through the pruned traversal: the invariant R_nochild (a node marked childless has no "
-             "webentity below) is preserved by every request, so pruning hides nothing.", T_REF, "DESIGN.md section 6 C13"),
+             "webentity below) is preserved by every request, so pruning hides nothing. On the API requests translated from the source on every run "
+             "(GenTraph.v over node_parents_iter and the pruned dfs_iter): get_webentity_parent_webentities / get_webentity_child_webentities answer "
+             "exactly the specification's sets, on the trie file of every reachable state.", T_REF, "DESIGN.md section 6 C13"),
     "C15": c("Props/C15.v: the file and memory storage machines (Storage.v) return the same results and end with the same contents on every operation "
              "sequence obeying the usage discipline (cursor reads right after reads; positioned writes of one block within the store); memmap "
              "read = positioned read; the discipline is necessary. Index level: the same histories on Traph(folder=None) and Traph(folder) "
@@ -83,7 +91,9 @@ CLAIMED = {
              "Coq proof: replay soundness + safety of every write (pointee before pointer) by induction; fault enumeration over every cut on the real code",
              "DESIGN.md section 6 C18", "Crash model assumed from the property: persistence = a prefix of program order, in-place rewrites atomic, files cut together."),
     "C19": c(REF + "Props/C19.v: the trie store has 1 + sum over the known LRUs of nblk(last stem) blocks (nblk = max 1 ceil(len/74)), the link store two "
-             "stubs per submitted link; a request that makes nothing newly known allocates nothing; metrics page figures agree.", T_REF, "DESIGN.md section 6 C19"),
+             "stubs per submitted link; a request that makes nothing newly known allocates nothing; metrics page figures agree. On the insertion path "
+             "translated from the source on every run (GenTrieW.v: LRUTrie.add_lru / add_page over the translated sibling insertion and node write): "
+             "the storage ends holding exactly the trie file of the model's next state, for every history and every LRU.", T_REF, "DESIGN.md section 6 C19"),
     "C20": c(REF + "Props/C20.v: the answer has min(k, n) entries among the webentity's pages within the depth limit, in non-increasing order, no omitted "
              "page has a larger reported indegree, reported indegree = distinct in-sources except that 0 is reported as 1 (defect F7: "
              "C20_zero_reported_one / C20_refuted_F7; the model mirrors the code, the oracle separates this known finding from any other).",
